@@ -151,6 +151,8 @@ fn main() {
             "unitkey" => mc::with_n!(n, run_bfs::<(), Vx>(&mut rep, nk, nv, alpha, threads, &caps)),
             "zstval" => mc::with_n!(n, run_bfs::<Kx, ()>(&mut rep, nk, nv, alpha, threads, &caps)),
             "big" => mc::with_n!(n, run_bfs::<u8, Big>(&mut rep, nk, nv, alpha, threads, &caps)),
+            "zst" => mc::with_n!(n, run_bfs::<(), ()>(&mut rep, nk, nv, alpha, threads, &caps)),
+            "aligned" => mc::with_n!(n, run_bfs::<u8, mc::payload::Al>(&mut rep, nk, nv, alpha, threads, &caps)),
             "strbig" => mc::with_n!(n, run_bfs::<String, Big>(&mut rep, nk, nv, alpha, threads, &caps)),
             _ => mc::with_n!(n, run_bfs::<Kx, Vx>(&mut rep, nk, nv, alpha, threads, &caps)),
         }
